@@ -308,7 +308,7 @@ func main() {
 	bounds := []bound{{2, 2}}
 	if run.Thorough() {
 		bounds = []bound{{3, 2}, {2, 3}}
-		run.SetBudget(40 * time.Minute)
+		run.SetBudget(25 * time.Minute)
 	}
 	files, patches, named := alphabet()
 	all := append(append(append([]Item{}, files...), patches...), named...)
